@@ -227,7 +227,7 @@ def p_duplicate_std(r, ctx, names):
     """a user global that collides with a name the std preamble imports into every file"""
     if not ctx.startswith("outer"):
         return None
-    return dict(insert=["%s :: 7" % r.choice(["print", "map", "abs", "Maybe"])], needs_std=True)
+    return dict(insert=["%s :: 7" % r.choice(["print", "map", "abs", "Maybe", "set", "dict", "list", "math"])], needs_std=True)
 
 
 def p_assign_constant(r, ctx, names):
